@@ -474,7 +474,16 @@ def run(repo: Repo, rep: Report, tier: str) -> None:
                 if T.id in dom[r.id]:
                     rep.ok("R8.4", sub, "depth test dominates this CONTINUE_PARSING return", check.loc(r.ast))
                 elif anon:
-                    rep.ok("R8.4", sub, "anonymous schema (name is None): bounded by document nesting, not by references (enumerated exception)", check.loc(r.ast))
+                    # the tracker lets anonymous schemas through unchecked: then the gate itself must cut them at the limit (inline compositions and
+                    # additionalProperties values nest as deep as the document does - "however deeply they nest")
+                    why = _gate_bounds_anonymous(repo)
+                    if why is None:
+                        rep.ok("R8.4", sub, "anonymous schema (name is None): not depth-checked here, but _parse_schema returns a depth placeholder for every anonymous non-$ref "
+                               "node beyond the limit before it descends", check.loc(r.ast))
+                    else:
+                        rep.violation("R8.4", sub, f"{check.fq}|anonymous-schemas-unbounded",
+                                      f"a schema without a name continues without any depth test, and {why}: inline oneOf / anyOf / allOf members and additionalProperties values nested a few "
+                                      "hundred levels deep exhaust the interpreter stack (RecursionError) instead of being cut by a placeholder at the depth limit", check.loc(r.ast))
                 else:
                     rep.violation("R8.4", sub, f"{check.fq}|continue-without-depth-test",
                                   "a CONTINUE_PARSING return is reachable without passing the depth test", check.loc(r.ast))
@@ -755,3 +764,42 @@ def rule_default_limit_fits_stack(repo: Repo, rep, rule: str = "R8.10") -> None:
             rep.violation(rule, sub, f"{rel}|default-limit-exceeds-stack|{d}",
                           f"a default limit of {d} needs about {d} x {FRAMES_PER_LEVEL} + {BASE_FRAMES} = {need} Python frames, more than the interpreter's {STACK_BUDGET}: a deep (acyclic) "
                           "document ends in RecursionError instead of being cut by depth placeholders", f"{rel}:{node.lineno}")
+
+
+def _gate_bounds_anonymous(repo: Repo) -> Optional[str]:
+    """None when `_parse_schema` cuts anonymous schemas at the depth limit itself: before its first descent there is an `if` whose test is a
+    conjunction of `<name> is None`, a depth comparison (`<ctx>.recursion_depth > <limit>`) and at most the two conjuncts that exempt `$ref`
+    nodes (`isinstance(<node>, Mapping)`, `"$ref" not in <node>` - a reference continues to a named schema, which the tracker bounds), and
+    whose body returns.  Otherwise the reason."""
+    from sa.match import conjuncts as _conj
+
+    gate = repo.func("core.parsing.schema_parser:_parse_schema")
+    GL = Locals(gate.node)
+    if len(gate.params) < 2:
+        return "the signature of _parse_schema changed"
+    p_name, p_node = gate.params[0], gate.params[1]
+    descents = [c.lineno for c in calls_in(gate.node) if isinstance(c.func, ast.Name) and c.func.id in ("_parse_composition_keywords", "_parse_properties", "_parse_schema", "_resolve_ref")]
+    first_descent = min(descents) if descents else 10 ** 9
+    for n in own_nodes(gate.node):
+        if not (isinstance(n, ast.If) and n.lineno < first_descent and any(isinstance(b, ast.Return) for b in n.body)):
+            continue
+        cj = _conj(n.test, GL, stop=tuple(GL.params))
+        kinds = []
+        for c in cj:
+            txt = norm(c)
+            if match("VAR_p is None", c) is not None and match("VAR_p is None", c)["VAR_p"] == p_name:
+                kinds.append("anon")
+            elif any(isinstance(x, ast.Attribute) and x.attr == "recursion_depth" for x in ast.walk(c)) and isinstance(c, ast.Compare) and isinstance(c.ops[0], (ast.Gt, ast.GtE)):
+                kinds.append("depth")
+            elif isinstance(c, ast.Call) and dotted(c.func) == "isinstance" and c.args and isinstance(c.args[0], ast.Name) and c.args[0].id == p_node:
+                kinds.append("mapping")
+            elif isinstance(c, ast.Compare) and len(c.ops) == 1 and isinstance(c.ops[0], ast.NotIn) and const_str(c.left) == "$ref":
+                kinds.append("not-ref")
+            else:
+                kinds.append("other:" + txt[:40])
+        if "anon" in kinds and "depth" in kinds:
+            other = [k for k in kinds if k.startswith("other:")]
+            if other:
+                return f"the depth cut of _parse_schema for anonymous schemas applies only under the further condition `{other[0][6:]}`"
+            return None
+    return "_parse_schema has no depth cut of its own for them before it descends"
